@@ -313,11 +313,14 @@ class Bicomplex(object):
         return self.log() / np.log(2)
 
     def log1p(self):
-        return Bicomplex(np.log1p(self.mod_c()), self.arg_c1p())
+        # log(1 + zeta): complex modulus of 1 + zeta is sqrt((1 + z1)**2 + z2**2)
+        z1, z2 = self.z1, self.z2
+        return Bicomplex(0.5 * np.log1p(2 * z1 + z1 * z1 + z2 * z2), self.arg_c1p())
 
     def expm1(self):
-        expz1 = np.expm1(self.z1)
-        return Bicomplex(expz1 * np.cos(self.z2), expz1 * np.sin(self.z2))
+        # exp(zeta) - 1 = (exp(z1) - 1) * cos(z2) + (cos(z2) - 1) + j * exp(z1) * sin(z2)
+        z1, z2 = self.z1, self.z2
+        return Bicomplex(np.expm1(z1) * np.cos(z2) - 2 * np.sin(0.5 * z2) ** 2, np.exp(z1) * np.sin(z2))
 
     def exp(self):
         expz1 = np.exp(self.z1)
